@@ -186,7 +186,7 @@ def enumerate_paths(crate, body, markers=None, max_paths=4096, atom_calls=None):
                     if body.blocks[t["otherwise"]]["term"]["tk"] != "unreachable":
                         c2 = dict(cons)
                         if atom not in c2:
-                            c2[atom] = "other"
+                            c2[atom] = ("other",) + tuple(sorted(a for a, _ in arms))      # none of the listed values
                         step(t["otherwise"], env, c2, marks, visited)
                 return
             # unknown discriminant: explore all
